@@ -1,18 +1,292 @@
 // in-crate Kani harnesses for http/keep_alive_body.rs (included under cfg(kani)).
 // `Interval` replaces tokio::time::Interval (tokio's timer needs a runtime and makes kani-compiler ICE):
 // every poll_tick returns an arbitrary Ready/Pending, i.e. the tick is a nondeterministic environment.
+// `last` only RECORDS the latest answer for the harnesses (0 = not polled since the harness reset it,
+// 1 = Ready, 2 = Pending); it does not influence the answer.
 mod verif_kani {
     use std::task::{Context, Poll};
     use std::time::Duration;
 
-    pub struct Interval;
+    pub struct Interval {
+        pub last: u8,
+    }
 
     impl Interval {
         pub fn new(_d: Duration) -> Self {
-            Interval
+            Interval { last: 0 }
         }
         pub fn poll_tick(&mut self, _cx: &mut Context<'_>) -> Poll<()> {
-            if kani::any() { Poll::Ready(()) } else { Poll::Pending }
+            if kani::any() {
+                self.last = 1;
+                Poll::Ready(())
+            } else {
+                self.last = 2;
+                Poll::Pending
+            }
         }
     }
+}
+
+// C03 (keep-alive part): `KeepAliveBody::poll_frame` / `is_end_stream` as compiled, against every interleaving of
+// "the backend future completes" and "the keep-alive tick fires" within the bound.
+//
+// Environment (all of it is part of the claim):
+//  * backend future `Backend`: answers Pending k times (every k in 0..=3, wakes the waker each time), then
+//    Ready(Ok(response)) or Ready(Err(LateError)) (both); it asserts that it is never polled again
+//    after it has completed (contract of `Future`);
+//  * the Ok response: status 200, body = ONE static data frame b"<X/>" (`Body::from(Bytes::from_static(..))`),
+//    headers = an EMPTY HeaderMap.  Measured: one static `headers.insert(ETAG, HeaderValue::from_static("v"))` is not
+//    constant-folded by CBMC (the probe loops of `HeaderMap::try_insert2` / `do_insert_phase_two` run to the unwinding
+//    bound), after it the variant of `Body` is symbolic and a single run (k = 1, 8 polls) exhausts 10 GB after 450 s —
+//    three attempts (insert inside the future, insert before the first poll, trailers inspected at one poll only).
+//    Instead the `_marked` variants give the response a header map allocated with `HeaderMap::with_capacity(2)` (no
+//    entry, no hashing) and recognise THAT map in the trailers frame by its capacity (a fresh map has capacity 0):
+//    this checks that the trailers frame carries the header map of the response; the contents of a non-empty map are
+//    not exercised;
+//  * tick: `verif_kani::Interval` above, arbitrary Ready/Pending at every poll;
+//  * waker: `Waker::noop()`; the consumer polls POLLS = 8 times, also after the end of the stream.
+//
+// Reference (written from the property statement, not from the code): the frame sequence is
+//     initial?  (b" ")*  document-frame  trailers(headers of the response)  None*        on Ok
+//     initial?  (b" ")*  Err  None*                                                        on Err
+// with `Pending` allowed only inside the whitespace phase.
+pub(crate) mod verif_kani_kab {
+    use super::*;
+    use core::mem::forget;
+
+    /// capacity that marks the header map of the Ok response in the `_marked` variants
+    const MARK_CAPACITY: usize = 2;
+
+    const INITIAL: &[u8] = b"<?xml?>";
+    const DOC: &[u8] = b"<X/>";
+    const POLLS: usize = 8;
+
+    // outcome codes of one poll
+    const O_NONE: u8 = 0; // Ready(None)
+    const O_PENDING: u8 = 1; // Pending
+    const O_INITIAL: u8 = 2; // data frame == INITIAL
+    const O_SPACE: u8 = 3; // data frame == b" "
+    const O_DOC: u8 = 4; // data frame == DOC
+    const O_TRAILERS: u8 = 5; // trailers frame carrying exactly the headers of the response
+    const O_ERR: u8 = 6; // Ready(Some(Err(_)))
+    const O_OTHER_DATA: u8 = 7; // any other data frame
+    const O_BAD_TRAILERS: u8 = 8; // trailers frame with other contents
+    const O_UNPOLLED: u8 = 9;
+
+    #[derive(Debug)]
+    struct LateError;
+    impl core::fmt::Display for LateError {
+        fn fmt(&self, _f: &mut core::fmt::Formatter<'_>) -> core::fmt::Result {
+            Ok(())
+        }
+    }
+    impl std::error::Error for LateError {}
+
+    pub(crate) struct Backend {
+        pending_left: u8,
+        /// the answer of the backend, built by the harness before the first poll and handed out at completion
+        answer: Option<Result<Response, StdError>>,
+        completed: bool,
+    }
+
+    impl Future for Backend {
+        type Output = Result<Response, StdError>;
+
+        fn poll(mut self: Pin<&mut Self>, cx: &mut Context<'_>) -> Poll<Self::Output> {
+            assert!(!self.completed, "the backend future is polled again after it has completed");
+            if self.pending_left > 0 {
+                self.pending_left -= 1;
+                cx.waker().wake_by_ref();
+                return Poll::Pending;
+            }
+            self.completed = true;
+            match self.answer.take() {
+                Some(a) => Poll::Ready(a),
+                None => unreachable!(),
+            }
+        }
+    }
+
+    fn answer(ok: bool, marked_map: bool) -> Result<Response, StdError> {
+        if ok {
+            let mut res = Response::default();
+            res.body = crate::http::Body::from(Bytes::from_static(DOC));
+            if marked_map {
+                res.headers = hyper::HeaderMap::with_capacity(MARK_CAPACITY);
+            }
+            Ok(res)
+        } else {
+            Err(Box::new(LateError))
+        }
+    }
+
+    fn same_bytes(a: &[u8], b: &[u8]) -> bool {
+        if a.len() != b.len() {
+            return false;
+        }
+        let mut ok = true;
+        let mut i = 0;
+        while i < b.len() {
+            if a[i] != b[i] {
+                ok = false;
+            }
+            i += 1;
+        }
+        ok
+    }
+
+    /// `inspect_trailers`: look into a trailers frame only at polls where the backend has completed
+    /// before the poll — a trailers frame at any other poll is a violation whatever it carries (O_BAD_TRAILERS).
+    /// (Measured: looking into the frame at every poll makes symbolic execution evaluate `HeaderMap::get` on the
+    /// merged Pending/whitespace outcome of the waiting polls: out of memory at 10 GB after 540 s.)
+    fn classify(out: Poll<Option<Result<Frame<Bytes>, StdError>>>, with_header: bool, inspect_trailers: bool) -> u8 {
+        match out {
+            Poll::Pending => O_PENDING,
+            Poll::Ready(None) => O_NONE,
+            Poll::Ready(Some(Err(e))) => {
+                forget(e);
+                O_ERR
+            }
+            Poll::Ready(Some(Ok(frame))) => {
+                let code = if let Some(d) = frame.data_ref() {
+                    let d: &[u8] = d.as_ref();
+                    if same_bytes(d, INITIAL) {
+                        O_INITIAL
+                    } else if same_bytes(d, b" ") {
+                        O_SPACE
+                    } else if same_bytes(d, DOC) {
+                        O_DOC
+                    } else {
+                        O_OTHER_DATA
+                    }
+                } else if !inspect_trailers {
+                    O_BAD_TRAILERS
+                } else if let Some(t) = frame.trailers_ref() {
+                    // the header map of the response is recognised by its capacity (see the header comment)
+                    let good = if with_header {
+                        t.len() == 0 && t.capacity() >= MARK_CAPACITY
+                    } else {
+                        t.len() == 0 && t.capacity() == 0
+                    };
+                    if good { O_TRAILERS } else { O_BAD_TRAILERS }
+                } else {
+                    O_BAD_TRAILERS
+                };
+                forget(frame);
+                code
+            }
+        }
+    }
+
+    /// phases of the reference grammar
+    const P_START: u8 = 0; // nothing delivered yet
+    const P_WAIT: u8 = 1; // (initial delivered;) waiting for the backend: whitespace / Pending
+    const P_DOC: u8 = 2; // the document frame has been delivered, trailers must follow
+    const P_END: u8 = 3; // trailers or Err delivered: only None may follow
+
+    fn run(with_initial: bool, with_header: bool, k: u8, ok: bool) {
+        let fut = Backend {
+            pending_left: k,
+            answer: Some(answer(ok, with_header)),
+            completed: false,
+        };
+        let initial = if with_initial { Some(Bytes::from_static(INITIAL)) } else { None };
+        let mut body = KeepAliveBody::new(fut, Duration::from_millis(100), initial);
+        let mut cx = Context::from_waker(std::task::Waker::noop());
+
+        let mut seq = [O_UNPOLLED; POLLS];
+        let mut phase = P_START;
+        let mut spaces_or_pendings: u8 = 0;
+        assert!(!body.is_end_stream(), "end of stream announced before anything was sent");
+
+        let mut i = 0;
+        while i < POLLS {
+            // what the environment is going to answer at this poll (concrete: k and Ok/Err are concrete per run)
+            let backend_done = body.inner.completed;
+            let backend_pending_now = !backend_done && body.inner.pending_left > 0;
+            body.interval.last = 0;
+
+            let out = Pin::new(&mut body).poll_frame(&mut cx);
+            let tick = body.interval.last;
+            let code = classify(out, with_header, backend_done);
+            seq[i] = code;
+
+            // ---- reference automaton (its phase depends on the concrete environment only) --------------
+            if phase == P_START && with_initial {
+                assert!(code == O_INITIAL, "the stream does not start with the initial body");
+                phase = P_WAIT;
+            } else if phase == P_START || phase == P_WAIT {
+                phase = P_WAIT;
+                if backend_pending_now {
+                    // the backend answers Pending at this poll: whitespace iff the tick fires, else Pending
+                    assert!(
+                        code == O_SPACE || code == O_PENDING,
+                        "something else than whitespace / Pending while the backend is pending"
+                    );
+                    assert!(code != O_SPACE || tick == 1, "whitespace without a tick");
+                    assert!(code != O_PENDING || tick == 2, "Pending although the tick is ready (or was not polled)");
+                    spaces_or_pendings += 1;
+                } else if ok {
+                    // the backend completes at this poll: no more whitespace, no Pending
+                    assert!(code == O_DOC, "the document does not follow the completion of the backend");
+                    phase = P_DOC;
+                } else {
+                    assert!(code == O_ERR, "the late error does not follow the completion of the backend");
+                    phase = P_END;
+                }
+            } else if phase == P_DOC {
+                assert!(code == O_TRAILERS, "the document is not followed by the trailers of the response");
+                phase = P_END;
+            } else {
+                assert!(code == O_NONE, "a frame after the end of the stream");
+            }
+            assert!(
+                body.is_end_stream() == (phase == P_END),
+                "is_end_stream is not `true exactly after trailers / Err`"
+            );
+            i += 1;
+        }
+        // within 8 polls every run (<= 1 initial + 3 waits + document + trailers) has ended, and the number of
+        // whitespace/Pending answers is the number of times the backend was pending
+        assert!(phase == P_END, "the stream did not end");
+        assert!(spaces_or_pendings == k);
+        assert!(body.inner.completed);
+
+        // ONE cover only: every satisfied cover makes CBMC print a full trace, and with 4 covers the JSON output of the
+        // k = 2..3 harnesses made kani-driver exceed the 10 GB address-space cap AFTER CBMC had proved everything
+        let s0 = if with_initial { 1 } else { 0 };
+        kani::cover!(seq[POLLS - 1] == O_NONE && (k == 0 || seq[s0] == O_SPACE) && (k < 2 || seq[s0 + 1] == O_PENDING));
+        forget(body);
+    }
+
+    /// every completion timing k = 0..=3 as a CONCRETE loop.  Measured: with a symbolic k (and symbolic Ok/Err) the
+    /// state of the body — in particular the variant of `Body` — becomes symbolic, symbolic execution walks into
+    /// hyper::body::Incoming and the drop glue of every error type and runs out of memory (10 GB) after 880 s; with
+    /// all 8 (k, Ok/Err) runs of 10 polls in one harness the formula has 20 M variables (out of memory at 10 GB).
+    /// Hence one harness per (initial body?, Ok/Err), 4 runs of 8 polls each; the tick stays symbolic.
+    fn all(with_initial: bool, with_header: bool, ok: bool, k_from: u8, k_to: u8) {
+        let mut k = k_from;
+        while k <= k_to {
+            run(with_initial, with_header, k, ok);
+            k += 1;
+        }
+    }
+
+    macro_rules! kab_harness {
+        ($name:ident, $initial:expr, $hdr:expr, $ok:expr, $k_from:expr, $k_to:expr) => {
+            #[kani::proof]
+            #[kani::unwind(9)]
+            pub(crate) fn $name() {
+                all($initial, $hdr, $ok, $k_from, $k_to);
+            }
+        };
+    }
+    // Ok: 4 runs in one harness need more than 10 GB (12.3 M / 12.8 M variables, allocation failure in the solver
+    // with and without initial body), hence two harnesses of 2 runs each
+    kab_harness!(c03_kab_initial_ok_marked_k01, true, true, true, 0, 1);
+    kab_harness!(c03_kab_initial_ok_marked_k23, true, true, true, 2, 3);
+    kab_harness!(c03_kab_noinitial_ok_k01, false, false, true, 0, 1);
+    kab_harness!(c03_kab_noinitial_ok_k23, false, false, true, 2, 3);
+    kab_harness!(c03_kab_initial_err, true, false, false, 0, 3);
+    kab_harness!(c03_kab_noinitial_err, false, false, false, 0, 3);
 }
